@@ -60,6 +60,7 @@ type LemmaRun struct {
 	NondetMapOrder bool
 	YieldAtGo      bool
 	Known          map[string]string // finding id -> status
+	pkg            *ssa.Package
 
 	mu          sync.Mutex
 	cond        *sync.Cond
@@ -168,6 +169,7 @@ func (w *worker) runPath(l *LemmaRun, entry *ssa.Function, prefix []Decision) {
 	in.symMulDiv, in.opaqueN = 0, 0
 	in.model, in.modelHits = nil, 0
 	in.lits, in.litHits = nil, 0
+	in.fixed, in.free = nil, nil
 	in.sol.Push()
 	status := "ok"
 	why := ""
